@@ -117,3 +117,13 @@ package input
 //@ invariant forall k string :: dom(pt.Meta, k) ==> pt.Meta[k] != nil && allocated(pt.Meta[k]) && (dom(f, k) || (iterseen(k) && dom(t, k) && pt.Meta[k].PtFlag == PtTag))
 //@ invariant forall k string :: iterseen(k) ==> dom(pt.Meta, k)
 //@ invariant forall j, k string :: dom(pt.Meta, j) && dom(pt.Meta, k) && j != k ==> pt.Meta[j] != pt.Meta[k]
+
+//@ func (*Point).Rename
+//@ props C10
+//@ modifies mapof(pt.Fields), mapof(pt.Tags), mapof(pt.Meta)
+//@ ensures (to == from || !old(dom(pt.Meta, from))) ==> (forall k string :: dom(pt.Fields, k) == old(dom(pt.Fields, k)) && dom(pt.Tags, k) == old(dom(pt.Tags, k)) && dom(pt.Meta, k) == old(dom(pt.Meta, k)))
+//@ ensures to != from && old(dom(pt.Meta, from)) ==> result == nil && !dom(pt.Meta, from) && !dom(pt.Fields, from) && !dom(pt.Tags, from) && dom(pt.Meta, to) && pt.Meta[to] == old(pt.Meta[from])
+//@ ensures to != from && old(dom(pt.Fields, from)) ==> dom(pt.Fields, to) && pt.Fields[to] == old(pt.Fields[from]) && !dom(pt.Tags, to)
+//@ ensures to != from && old(dom(pt.Tags, from)) ==> dom(pt.Tags, to) && pt.Tags[to] == old(pt.Tags[from]) && !dom(pt.Fields, to)
+//@ ensures forall k string :: k != to && k != from ==> dom(pt.Fields, k) == old(dom(pt.Fields, k)) && dom(pt.Tags, k) == old(dom(pt.Tags, k)) && dom(pt.Meta, k) == old(dom(pt.Meta, k))
+//@ ensures forall k string :: k != to && k != from ==> pt.Fields[k] == old(pt.Fields[k]) && pt.Tags[k] == old(pt.Tags[k]) && pt.Meta[k] == old(pt.Meta[k])
